@@ -849,7 +849,15 @@ class MatchIdentity(MatchFunction):
 
 
 def _dig(fn):
-    while hasattr(fn, "__wrapped__") and not is_tooled(fn):
+    while (
+        hasattr(fn, "__wrapped__")
+        and not is_tooled(fn)
+        # (functools.wraps can be given anything, e.g. a builtin: the
+        # wrapper itself is then the function to look at)
+        and isinstance(
+            fn.__wrapped__, (types.FunctionType, types.MethodType, property)
+        )
+    ):
         fn = fn.__wrapped__
     if isinstance(fn, property):
         return _dig(fn.fget)
